@@ -35,12 +35,22 @@ type c13Scenario struct {
 	ExtraFirst  bool     `json:"extra_first,omitempty"`
 	// MixedRendition replaces the first rendition of an fMP4 stream by an MPEG-TS one
 	MixedRendition bool `json:"mixed_rendition,omitempty"`
+	// ExtraData: the segments carry track fragments of the extra (unsupported) tracks too
+	ExtraData bool `json:"extra_data,omitempty"`
+	// LL serves the leading playlist as a Low-Latency history (SERVER-CONTROL, PART-INF, a preload
+	// hint naming the next segment, one more segment per reload); LLBreak damages the reloads:
+	// "" | drop-server-control | drop-part-inf | hint-garbage | hint-missing-resource
+	LL      bool   `json:"ll,omitempty"`
+	LLBreak string `json:"ll_break,omitempty"`
 }
 
 var fmp4Ops = []string{"truncate", "truncate-box", "flip", "garbage", "empty", "zero-dur", "huge-dur", "huge-base", "drop-lead", "unknown-track", "dup-track", "no-samples", "swap-tracks"}
 var initOps = []string{"truncate", "truncate-box", "flip", "garbage", "empty", "many-tracks", "dup-ids", "no-tracks", "unsupported-only", "shift-ids", "zero-timescale", "huge-timescale"}
 var tsOps = []string{"truncate", "truncate-packet", "flip", "garbage", "empty", "drop-lead-pid", "no-tables"}
 var playlistOps = []string{"bytes", "truncate", "flip", "empty", "no-segments", "huge-numbers", "bad-uri", "map-without-uri"}
+
+// ops that only make sense on a multivariant playlist (all of them leave it well-formed or nearly so)
+var primaryOps = []string{"rend-without-uri", "extra-rend-without-uri", "rend-unknown-group", "variant-without-codecs", "two-variants"}
 
 func drawC13(t *rapid.T) c13Scenario {
 	sc := c13Scenario{Stream: drawStream(t)}
@@ -54,12 +64,17 @@ func drawC13(t *rapid.T) c13Scenario {
 			sc.ExtraCodecs = append(sc.ExtraCodecs, rapid.SampledFrom([]string{"ac3", "mjpeg", "lpcm", "mpeg4video", "mpeg1video", "mpeg1audio"}).Draw(t, "xcodec"))
 		}
 		sc.ExtraFirst = rapid.Bool().Draw(t, "xfirst")
+		sc.ExtraData = rapid.Bool().Draw(t, "xdata")
+	}
+	if !sc.Stream.Lead.ByteRange && rapid.IntRange(0, 5).Draw(t, "ll") == 0 {
+		sc.LL = true
+		sc.LLBreak = rapid.SampledFrom([]string{"", "drop-server-control", "drop-server-control", "drop-part-inf", "hint-garbage", "hint-missing-resource"}).Draw(t, "llbreak")
 	}
 	if sc.Stream.Container == "fmp4" && len(sc.Stream.Renditions) > 0 && rapid.IntRange(0, 3).Draw(t, "mixed") == 0 {
 		sc.MixedRendition = true
 	}
 	nm := rapid.IntRange(0, 3).Draw(t, "nmut")
-	if len(sc.ExtraCodecs) == 0 && !sc.MixedRendition && nm == 0 {
+	if len(sc.ExtraCodecs) == 0 && !sc.MixedRendition && !sc.LL && nm == 0 {
 		nm = 1
 	}
 	for i := 0; i < nm; i++ {
@@ -74,6 +89,9 @@ func drawC13(t *rapid.T) c13Scenario {
 		switch {
 		case strings.HasSuffix(m.Target, "playlist") || m.Target == "primary":
 			m.Op = rapid.SampledFrom(playlistOps).Draw(t, "plop")
+			if m.Target == "primary" && sc.Stream.Multi && rapid.Bool().Draw(t, "primaryOp") {
+				m.Op = rapid.SampledFrom(primaryOps).Draw(t, "primop")
+			}
 			if m.Op == "bytes" {
 				m.Data = drawDecScenario(t).Text
 			}
@@ -393,8 +411,72 @@ func mutatePlaylist(txt string, m c13Mut) string {
 		return sb.String()
 	case "map-without-uri":
 		return strings.Replace(txt, "#EXT-X-MAP:URI=", "#EXT-X-MAP:BYTERANGE=\"1@0\",X=", 1)
+	case "rend-without-uri":
+		// a rendition whose media is carried by the variant itself has no URI (RFC 8216 4.3.4.1)
+		if i := strings.Index(txt, ",URI=\"rend"); i >= 0 {
+			if j := strings.Index(txt[i+6:], "\""); j >= 0 {
+				return txt[:i] + txt[i+6+j+1:]
+			}
+		}
+		return withExtraRendition(txt)
+	case "extra-rend-without-uri":
+		return withExtraRendition(txt)
+	case "rend-unknown-group":
+		return strings.Replace(txt, "GROUP-ID=\"aud\"", "GROUP-ID=\"other\"", 1)
+	case "variant-without-codecs":
+		return strings.Replace(txt, ",CODECS=\"avc1.42c028,mp4a.40.2\"", "", 1)
+	case "two-variants":
+		return txt + "#EXT-X-STREAM-INF:BANDWIDTH=50000,CODECS=\"avc1.42c028\"\nlead.m3u8\n"
 	}
 	return txt
+}
+
+// withExtraRendition adds an audio rendition without URI ("the audio is in the variant") to the
+// group of the first variant, creating the group when the variant has none.
+func withExtraRendition(txt string) string {
+	line := "#EXT-X-MEDIA:TYPE=AUDIO,GROUP-ID=\"aud\",NAME=\"muxed\",AUTOSELECT=YES\n"
+	i := strings.Index(txt, "#EXT-X-STREAM-INF:")
+	if i < 0 {
+		return txt
+	}
+	head, tail := txt[:i], txt[i:]
+	if !strings.Contains(tail, "AUDIO=\"aud\"") {
+		if j := strings.Index(tail, "\n"); j >= 0 {
+			tail = tail[:j] + ",AUDIO=\"aud\"" + tail[j:]
+		}
+	}
+	return head + line + tail
+}
+
+// addExtraSamples appends, to every fragment of an fMP4 segment, a track fragment with two
+// samples for each extra (unsupported) track declared by addExtraTracks.
+func addExtraSamples(b []byte, extra []string, first bool) []byte {
+	var parts fmp4.Parts
+	if err := parts.Unmarshal(b); err != nil || len(parts) == 0 {
+		return b
+	}
+	for _, p := range parts {
+		if len(p.Tracks) == 0 {
+			continue
+		}
+		var add []*fmp4.PartTrack
+		for k := range extra {
+			add = append(add, &fmp4.PartTrack{ID: 20 + k, BaseTime: p.Tracks[0].BaseTime, Samples: []*fmp4.PartSample{
+				{Duration: 480, Payload: []byte{0xde, 0xad, byte(k), 1}},
+				{Duration: 480, Payload: []byte{0xde, 0xad, byte(k), 2}},
+			}})
+		}
+		if first {
+			p.Tracks = append(add, p.Tracks...)
+		} else {
+			p.Tracks = append(p.Tracks, add...)
+		}
+	}
+	var w seekablebuffer.Buffer
+	if err := parts.Marshal(&w); err != nil {
+		return b
+	}
+	return append([]byte{}, w.Bytes()...)
 }
 
 func cpuTime() time.Duration {
@@ -424,6 +506,12 @@ func execC13(sc c13Scenario) core.Outcome {
 	if len(sc.ExtraCodecs) > 0 && b.Lead.InitURI != "" && !b.Lead.Def.ByteRange {
 		files[b.Lead.InitURI] = addExtraTracks(files[b.Lead.InitURI], sc.ExtraCodecs, sc.ExtraFirst)
 		o.Labels = append(o.Labels, "unsupported-codec-track")
+		if sc.ExtraData {
+			for _, u := range b.Lead.SegURIs {
+				files[u] = addExtraSamples(files[u], sc.ExtraCodecs, sc.ExtraFirst)
+			}
+			o.Labels = append(o.Labels, "unsupported-codec-track-with-data")
+		}
 	}
 	for _, m := range sc.Muts {
 		pick := func(rend bool) *cli.BuiltPlaylist {
@@ -498,6 +586,37 @@ func execC13(sc c13Scenario) core.Outcome {
 	for p, txt := range texts {
 		srv.AddPlaylist(p, txt)
 	}
+	if sc.LL && !b.Lead.Def.ByteRange && len(b.Lead.SegURIs) >= 2 {
+		// Low-Latency history of the leading playlist: snapshot k lists segments 0..k and hints at
+		// segment k+1; the last one has no hint and ends. Reloads may be damaged.
+		var snaps []string
+		n := len(b.Lead.SegURIs)
+		for k := 0; k < n; k++ {
+			extra := []string{"#EXT-X-SERVER-CONTROL:CAN-BLOCK-RELOAD=YES,PART-HOLD-BACK=0.3,CAN-SKIP-UNTIL=12.0", "#EXT-X-PART-INF:PART-TARGET=0.1"}
+			if k >= 1 {
+				switch sc.LLBreak {
+				case "drop-server-control":
+					extra = extra[1:]
+				case "drop-part-inf":
+					extra = extra[:1]
+				}
+			}
+			txt := cli.MediaPlaylistText(b.Lead, sc.Stream.Container, 0, 0, k+1, false, k == n-1, extra)
+			if k < n-1 {
+				hint := b.Lead.SegURIs[k+1]
+				if k >= 1 && sc.LLBreak == "hint-missing-resource" {
+					hint = "nosuch_part.mp4"
+				}
+				txt += fmt.Sprintf("#EXT-X-PRELOAD-HINT:TYPE=PART,URI=\"%s\"\n", hint)
+				if k >= 1 && sc.LLBreak == "hint-garbage" {
+					txt += "#EXT-X-PRELOAD-HINT:TYPE=PART\n"
+				}
+			}
+			snaps = append(snaps, txt)
+		}
+		srv.AddPlaylist(b.Lead.Path, snaps...)
+		o.Labels = append(o.Labels, "low-latency-history", "ll-break:"+sc.LLBreak)
+	}
 	uri := "http://stream.test/lead.m3u8"
 	if sc.Entry == "multi" {
 		uri = "http://stream.test/index.m3u8"
@@ -550,7 +669,7 @@ func execC13(sc c13Scenario) core.Outcome {
 var propC13 = core.Prop[c13Scenario]{
 	ID:       "C13",
 	CrashLog: true,
-	Rule: "a C10 stream with 0-3 mutations applied before serving: arbitrary / hostile bytes as primary or media playlist, playlists truncated, flipped, emptied, without segments, with huge numbers, bad URIs or a MAP without URI; init segments truncated at box boundaries, flipped, replaced by garbage, with >10 tracks, duplicate / shifted ids, no tracks, only unsupported codecs, or extra tracks of codecs gohlslib has no type for (AC-3, MJPEG, LPCM, MPEG-4/MPEG-1 video, MPEG-1 audio); fMP4 segments with zero / huge durations, huge base times, no leading-track data, unknown / duplicate / swapped track ids, empty truns, truncation; MPEG-TS segments truncated at / inside packets, without PAT/PMT, without the leading PID; " +
+	Rule: "a C10 stream with 0-3 mutations applied before serving (optionally served as a Low-Latency history whose reloads lose SERVER-CONTROL / PART-INF or name a bad preload hint; multivariant playlists with renditions without URI, unknown groups, no CODECS, two variants; extra unsupported tracks with or without data in the segments): arbitrary / hostile bytes as primary or media playlist, playlists truncated, flipped, emptied, without segments, with huge numbers, bad URIs or a MAP without URI; init segments truncated at box boundaries, flipped, replaced by garbage, with >10 tracks, duplicate / shifted ids, no tracks, only unsupported codecs, or extra tracks of codecs gohlslib has no type for (AC-3, MJPEG, LPCM, MPEG-4/MPEG-1 video, MPEG-1 audio); fMP4 segments with zero / huge durations, huge base times, no leading-track data, unknown / duplicate / swapped track ids, empty truns, truncation; MPEG-TS segments truncated at / inside packets, without PAT/PMT, without the leading PID; " +
 		"oracle: the test process survives (a panic in a client goroutine kills it: the scenario is logged before execution), Wait() yields within 13 s (all playlists end or stop evolving, the media lasts well under a second and the client never paces a unit for more than 10 s; otherwise it is wedged and must at least honour Close), <= 400 requests and < 80% CPU, no track without codec exposed, no goroutine left; non-trivial = the client got past its first request",
 	Draw: drawC13,
 	Exec: execC13,
